@@ -21,7 +21,7 @@ func main() {
 		dkgcheck.ReplayFile(run, "C07")
 		return
 	}
-	dkgcheck.Run(run, "C07", dkgcheck.Jobs(run))
+	dkgcheck.Run(run, "C07", dkgcheck.Jobs(run, "C07"))
 	dkgcheck.Describe(run, "C07")
 	run.Finish()
 }
